@@ -502,6 +502,8 @@ pub struct AckModel {
     /// (client, etag) -> newest tick of a message containing the entity whose ack was processed.
     pub acked_tick: BTreeMap<(usize, u8), u32>,
     pub all: Vec<MutMsgInfo>,
+    /// Ids of mutate messages handed to each client so far: (client, message id).
+    pub delivered: BTreeSet<(usize, u32)>,
 }
 
 pub fn parse_mutate(track: bool, client: usize, w: &WireRec) -> Option<MutMsgInfo> {
@@ -771,6 +773,15 @@ impl Sim {
         self.acks.in_flight.retain(|k, _| k.0 != c);
         self.acks.pending_acks.retain(|k| k.0 != c);
         self.acks.acked_tick.retain(|k, _| k.0 != c);
+        self.acks.all.retain(|m| m.client != c);
+        self.acks.delivered.retain(|k| k.0 != c);
+        if let Some(mut seen) = self.clients[c]
+            .app
+            .world_mut()
+            .get_resource_mut::<MutateTicksSeen>()
+        {
+            seen.0.clear();
+        }
     }
 
     pub fn is_authorized(&self, c: usize) -> bool {
@@ -1226,6 +1237,11 @@ impl Sim {
         }
         let msgs = take(&mut self.clients[c].s2c[ch], sel);
         let n = msgs.len();
+        if ch == 1 {
+            for m in &msgs {
+                self.acks.delivered.insert((c, m.id));
+            }
+        }
         let mut client = self.clients[c]
             .app
             .world_mut()
@@ -1234,6 +1250,77 @@ impl Sim {
             client.insert_received(ch, m.bytes);
         }
         n
+    }
+
+    /// C12 (end to end): `MutateTickReceived` / `ServerMutateTicks` must report a tick exactly
+    /// when every mutate message the server sent for it to this client has been *applied*
+    /// (delivered and no longer waiting for its update tick), and exactly once.
+    pub fn check_mutate_ticks(&self, c: usize, view: &ClientView) -> Result<(), Violation> {
+        use bevy_replicon::{client::server_mutate_ticks::ServerMutateTicks, prelude::RepliconTick};
+        let Some(seen) = self.clients[c].app.world().get_resource::<MutateTicksSeen>() else {
+            return Ok(());
+        };
+        let mut counts: BTreeMap<u32, u32> = BTreeMap::new();
+        for t in &seen.0 {
+            *counts.entry(*t).or_default() += 1;
+        }
+        // messages per tick for this client (current session only)
+        let mut per_tick: BTreeMap<u32, (usize, usize)> = BTreeMap::new(); // tick -> (sent, applied)
+        for m in self.acks.all.iter().filter(|m| m.client == c) {
+            let e = per_tick.entry(m.tick).or_default();
+            e.0 += 1;
+            let delivered = self.acks.delivered.contains(&(c, m.id));
+            if delivered && m.update_tick <= view.update_tick {
+                e.1 += 1;
+            }
+        }
+        let tracker = self.clients[c].app.world().get_resource::<ServerMutateTicks>();
+        let newest = per_tick.keys().next_back().copied().unwrap_or(0);
+        for (t, (sent, applied)) in &per_tick {
+            let fired = counts.get(t).copied().unwrap_or(0);
+            let complete = sent == applied;
+            if fired > 1 {
+                return Err(Violation::new(
+                    "",
+                    "mutate-tick-notification",
+                    format!("client c{c}: MutateTickReceived fired {fired} times for tick {t}"),
+                ));
+            }
+            if fired == 1 && !complete {
+                return Err(Violation::new(
+                    "",
+                    "mutate-tick-notification",
+                    format!(
+                        "client c{c}: MutateTickReceived fired for tick {t} although only {applied} of its {sent} mutate message(s) have been applied"
+                    ),
+                ));
+            }
+            if fired == 0 && complete && newest.saturating_sub(*t) < 60 {
+                return Err(Violation::new(
+                    "",
+                    "mutate-tick-notification",
+                    format!(
+                        "client c{c}: all {sent} mutate message(s) of tick {t} have been applied but MutateTickReceived did not fire"
+                    ),
+                ));
+            }
+            if let Some(tr) = tracker {
+                let last = tr.last_tick().get();
+                if *t <= last && last - *t < 60 {
+                    let got = tr.contains(RepliconTick::new(*t));
+                    if got != complete {
+                        return Err(Violation::new(
+                            "",
+                            "mutate-tick-tracker",
+                            format!(
+                                "client c{c}: ServerMutateTicks::contains({t}) = {got}, but {applied} of {sent} mutate message(s) of that tick have been applied"
+                            ),
+                        ));
+                    }
+                }
+            }
+        }
+        Ok(())
     }
 
     pub fn deliver_to_server(&mut self, c: usize, ch: usize, sel: &Sel) -> usize {
